@@ -616,8 +616,9 @@ class Contract:
         self.returns_ = ty
         return self
 
-    def loop(self, ordinal, **kw):
+    def loop(self, ordinal, where=None, **kw):
         self.loops[ordinal] = LoopSpec(**kw)
+        self.loops[ordinal].where = where
         return self
 
     def expect_exits(self, *kinds):
